@@ -112,7 +112,7 @@ fn largest_containers(e: &Engine) -> (usize, usize) {
 
 pub fn run(ctx: &mut Ctx) {
     let sub = "det";
-    let cases = ctx.n(3_200, 40_000);
+    let cases = ctx.n(3_200, 120_000);
     let children = if ctx.quick() { 3 } else { 6 };
     for idx in 0..cases {
         if ctx.stop() {
